@@ -113,6 +113,69 @@ def run(ctx, prog, res):
     r2.check(n_t >= 4, {"tuple_results_followed_to_the_return": n_t}, "C05.R2:dropped:FLOOR", "FLOOR: expected at least 4 destructured builder results, found %d" % n_t)
 
     # R3 -------------------------------------------------------------------------------------
+    # ... nor is what an earlier repetition of a child contributed: in a builder loop over repeated children (a loop that
+    # takes the next pair), a named accumulator that was initialised before the loop and is read after it must not be
+    # overwritten as a whole by a value that does not depend on it - the last repetition would win (`Mo[1,3]` -> `Mo[3]`)
+    n_loops = 0
+    _rep = {}
+
+    def repeatable(rule):
+        """Symbols that can occur more than once among the children of `rule`."""
+        if rule in _rep:
+            return _rep[rule]
+        start, acc, delta = g.kids_dfa(rule)
+
+        def reach(q):
+            seen, work = set(), [q]
+            while work:
+                x = work.pop()
+                if x in seen:
+                    continue
+                seen.add(x)
+                work.extend(delta.get(x, {}).values())
+            return seen
+        out = set()
+        for q, m in delta.items():
+            for sym, q2 in m.items():
+                for q3 in reach(q2):
+                    if sym in delta.get(q3, {}):
+                        out.add(sym)
+        _rep[rule] = out
+        return out
+    for fid, f in sorted(prog.fns.items()):
+        if f.module != builder.MOD or f.kind != "Fn" or f.from_expansion:
+            continue
+        inloop = set()
+        for b_, _blk in f.live_blocks():
+            succs_ = [x for x in f.succs(b_) if not f.blocks[x]["cleanup"]]
+            if any(b_ in flow.reachable_blocks(f, x) for x in succs_):
+                inloop.add(b_)
+        takes = [b_ for b_, t in f.calls() if b_ in inloop and re.search(r"Pairs::<'i, R> as core::iter::traits::iterator::Iterator>::next$|Pairs.*::next$", flow.call_name(t) or "")]
+        if not takes:
+            continue
+        n_loops += 1
+        for b_, st in f.stmts():
+            if b_ not in inloop or st["k"] != "assign" or st["dst"]["p"]:
+                continue
+            l_ = st["dst"]["l"]
+            name = f.locals[l_].get("name")
+            if not name:
+                continue
+            outside_defs = [db for db, n in f.defs_of(l_) if db not in inloop]
+            if not outside_defs:
+                continue  # declared inside the loop: per-iteration value
+            sh_ = flow.rv_shape(f, st["rv"], depth=5)
+            depends = re.search(r"\b%s\b" % re.escape(name), sh_) is not None or ("_%d" % l_) in sh_
+            # a child that the grammar allows at most once among the children of this builder's rule cannot be
+            # overwritten by a second one: `x = build_x(pair)` under its own match arm is then fine
+            rule_ = f.name[len("build_"):] if f.name.startswith("build_") else None
+            if not depends and rule_ in g.rules:
+                built = [x for x in re.findall(r"parser::build_(\w+)\(", sh_) if x in g.rules]
+                if built and all(x not in repeatable(rule_) for x in built):
+                    depends = True
+            r2.check(depends, {"builder": f.name, "accumulator": name, "updated_in_loop_from": sh_[:60]}, "C05.R2:overwritten:%s:%s" % (f.name, name),
+                     "%s overwrites `%s` - initialised before its loop over repeated children - with a value that does not depend on it (%s): only the last repetition survives, what earlier children contributed is dropped" % (f.name, name, sh_[:80]), lib.where_of(f, st))
+    r2.check(n_loops >= 1, {"builder_loops_over_repeated_children": n_loops}, "C05.R2:FLOOR:loops", "FLOOR: no builder loop over repeated children found", None)
     r3 = res.rule("C05.R3", "numeric token languages are exactly the documented ranges and fit the types they are parsed into; the listed out-of-range inputs are rejected (exhaustive enumeration of digit strings with a PEG matcher on the grammar)")
     def vals(rule, n=5):
         return g.digit_language(rule, n)
